@@ -114,7 +114,17 @@ class It:
         raise NotImplementedError
 
     def clone(self):
-        raise Unsupported('clone of iterator ' + type(self).__name__)
+        # an iterator adaptor is its position plus immutable parts (closures, source cells): copy the state, clone nested iterators
+        import copy
+        c = copy.copy(self)
+        for k, v in list(vars(c).items()):
+            if isinstance(v, It):
+                setattr(c, k, v.clone())
+            elif isinstance(v, list):
+                setattr(c, k, list(v))
+            elif isinstance(v, Cell) and k == 'peeked':
+                setattr(c, k, Cell(v.v))
+        return c
 
 
 class SliceIt(It):
@@ -975,6 +985,19 @@ def m_slice_first(e, args, info):
     if container_len(t) == 0:
         return none()
     return some(Ref(r.cell, r.proj + (('f', 0),)))
+
+
+@exact('syn::Fields::len')
+def m_fields_len(e, args, info):
+    f = e.deref(args[0])
+    if f.d == 2:
+        return 0
+    return len(f.p[f.d][0].f[1].items)
+
+
+@exact('syn::Fields::is_empty')
+def m_fields_is_empty(e, args, info):
+    return m_fields_len(e, args, info) == 0
 
 
 @exact('syn::punctuated::Punctuated::len')
